@@ -7,6 +7,9 @@ from concurrent.futures import ThreadPoolExecutor
 here = os.path.dirname(os.path.dirname(os.path.abspath(__file__)))
 props = ['C%02d' % i for i in range(1, 21)]
 seeds = sorted(d for d in os.listdir(os.path.join(here, 'seeded')) if os.path.isdir(os.path.join(here, 'seeded', d)))
+only = sys.argv[1:]          # optional: names of seeds to (re-)evaluate; the other entries of INDEX.json are kept
+if only:
+    seeds = [s for s in seeds if s in only]
 try:
     old = json.load(open(os.path.join(here, 'seeded', 'INDEX.json')))
 except OSError:
@@ -41,5 +44,9 @@ for s in seeds:
     print('%-58s %s%s%s' % (s, ','.join(new[s]) or 'NONE', '' if own in new[s] else '   (not under its own property)', '   LOST: %s' % lost if lost else ''))
     if not new[s] or lost:
         bad += 1
+if only:
+    merged = dict(old)
+    merged.update(new)
+    new = merged
 json.dump(new, open(os.path.join(here, 'seeded', 'INDEX.json'), 'w'), indent=1, sort_keys=True)
 sys.exit(1 if bad else 0)
